@@ -218,8 +218,10 @@ impl EventLoop {
             // If available, prioritises pending requests from previous session.
             // Else, pulls next request from user requests channel.
             // If conditions in the below branch are for flow control.
-            // The branch is disabled if there's no pending messages and new user requests
-            // cannot be serviced due flow control.
+            // The branch is disabled while requests cannot be serviced due flow control. That
+            // holds for pending requests as well: they also carry the user requests which were
+            // still in the channel when the last connection failed, and a publish taken while a
+            // collision is parked would overwrite (and lose) the parked one.
             // We read next user user request only when inflight messages are < configured inflight
             // and there are no collisions while handling previous outgoing requests.
             //
@@ -246,7 +248,7 @@ impl EventLoop {
                 &mut self.pending,
                 &self.requests_rx,
                 self.mqtt_options.pending_throttle
-            ), if !self.pending.is_empty() || (!inflight_full && !collision) => match o {
+            ), if !inflight_full && !collision => match o {
                 Ok(request) => {
                     if let Some(outgoing) = self.state.handle_outgoing_packet(request)? {
                         network.write(outgoing).await?;
